@@ -126,6 +126,12 @@ def get_body(cfg):
                         path = sep + sep.join(parts) + trail  # first component must be the root's name
                     else:
                         path = sep + sep.join([swapcase(snames[r])] + parts) + trail
+                    # the result never depends on earlier calls: the same path string is first resolved on a node of
+                    # a class with ANOTHER separator (whatever that yields)
+                    other_sep = "|" if sep != "|" else "/"
+                    foreign = CLS[other_sep](0)
+                    foreign.name = snames[r]
+                    call(lambda: Resolver("name", relax=True).get(foreign, path))
                     for ignorecase in (False, True):
                         exp = P.get(parent, children, snames, start, path, sep, ignorecase)
                         for relax in (False, True):
